@@ -491,6 +491,16 @@ def p_map(w, p, f):
     return Prog(out.expr, f(p.ref), p.dsk)
 
 
+def p_map2(w, a, b, op=np.add):
+    """map_blocks(op, a, b): two array inputs, no alignment (broadcasting of single-block / length-1 axes)"""
+    ca, cb = w.fn(NC, "new_collection")(a.node), w.fn(NC, "new_collection")(b.node)
+    nd = max(len(ca.chunks), len(cb.chunks))
+    out = w.fn("dask_array._map_blocks", "map_blocks")(op, ca, cb, dtype=np.dtype("f8"), meta=np.empty((0,) * nd))
+    dsk = dict(a.dsk)
+    dsk.update(b.dsk)
+    return Prog(out.expr, op(a.ref, b.ref), dsk)
+
+
 def _shared_through_two_permutations(w, E):
     """a shared opaque node reached along two paths with different axis permutations (cube with the same chunks on every axis)"""
     c = source(w, E, "c", (2,)).node.chunks[0]
@@ -637,6 +647,9 @@ def programs(tier):
     reg("diag(x[3+5,5+3])", lambda w, E: p_diag(w, E, source(w, E, "x", (2, 2), chunks=[(3, 5), (5, 3)])), 2)
     reg("diag(x[2+2,1+3],k=1)", lambda w, E: p_diag(w, E, source(w, E, "x", (2, 2), chunks=[(2, 2), (1, 3)]), 1), 2)
     reg("T(map(T(y,(1,2,0))),(0,2,1))+T(y,(2,1,0)), y=map(x2x2x2) shared", lambda w, E: _shared_through_two_permutations(w, E), 8)
+    reg("map_blocks(np.add,y[1],x1) (length-1 operand first)", lambda w, E: p_map2(w, source(w, E, "y", (1,), chunks=[(1,)]), source(w, E, "x", (1,))), 2)
+    reg("map_blocks(np.add,x2,y[1])", lambda w, E: p_map2(w, source(w, E, "x", (2,)), source(w, E, "y", (1,), chunks=[(1,)])), 2)
+    reg("map_blocks(np.add,y[1],x2)", lambda w, E: p_map2(w, source(w, E, "y", (1,), chunks=[(1,)]), source(w, E, "x", (2,))), 2)
     # map_blocks with block_info / block_id, with rewrites above and below the call
     reg("map_blocks(f_info,x3)", lambda w, E: p_map_blocks(w, E, source(w, E, "x", (3,))), 3)
     reg("map_blocks(f_info,x2x2)", lambda w, E: p_map_blocks(w, E, source(w, E, "x", (2, 2))), 3)
